@@ -205,12 +205,15 @@ def beyond_cases(fc):
 
 
 # ------------------------------------------------------------------------------------------------ concurrent callers
-def mt_stream(run, exe, limit):
+def mt_stream(run, exe, limit, anc=b"nosuchproc2"):
     iters = 1500 if run.tier == "quick" else 12000
     long_drop = (b"noop;" * 150)[: min(700, limit - 40)] + b"only_uid:4242"          # drops for every uid but 4242, at the very end
     long_pass = (b"nosuch:" + b"k" * 40 + b";") * 12 + b"exclude_uid:4242"
     sets = [[long_drop, b"noop"], [long_drop, long_pass, b"", b"exclude_uid:4242;noop"], [b"noop;only_root;only_uid:4242", b"only_uid:1000,0;noop;noop", b"x", long_drop]]
     cases = ["mt\t%d\t%d\t0\t%d\t%s" % (r, e, iters, hexlist(cs)) for (r, e) in ((0, 0), (1000, 7)) for cs in sets]
+    # list-taking filters with different lists in different threads (a tokeniser with process-wide state mixes them up)
+    spawn = [b"exclude_spawns_of:aa,bb,cc,dd,ee," + anc, b"exclude_spawns_of:ff,gg,hh,ii,jj,kk,nosuchproc", b"noop;exclude_spawns_of:ll,mm,nn;only_uid:0,1000", b"exclude_spawns_of:" + anc + b",oo,pp"]
+    cases.append("mt\t0\t0\t0\t%d\t%s" % (max(200, iters // 5), hexlist(spawn)))
     d = os.path.join(run.scratch, "mt")
     os.makedirs(d, exist_ok=True)
     cp = os.path.join(d, "cases.txt")
@@ -236,6 +239,54 @@ def mt_stream(run, exe, limit):
     return {"cases": len(cases), "threads": sorted(set(len(c.split("\t")[5].split(",")) for c in cases)), "evaluations": ncalls}
 
 
+# ------------------------------------------------------------------------------------------------ a build with one filter only
+def variant_stream(run, exe, pty_ok):
+    """production library built from the snapshot with only_tty as the ONLY configured filter (config.h edited as
+    --disable-all-filters --enable-filter-only_tty does): the chain is still consulted; names of filters that are not in this build are ignored"""
+    import re
+    from vlib.core import CheckError as _CE
+
+    def only_tty_cfg(cfg):
+        return re.sub(r"^#define SNOOPY_CONF_FILTER_ENABLED_(?!only_tty\b)\w+.*$", "/* not in this build */", cfg, flags=re.M)
+    try:
+        objs = run.build_objs("prod-onlytty", san=False, entry=True, config_edit=only_tty_cfg)
+        lib = os.path.join(run.scratch, "lib-prod-onlytty.so")
+        run.link(lib, [], objs, san=False, shared=True)
+    except _CE as ex:
+        run.notes.append("the tree does not build with only_tty as the only filter: variant stream skipped (%s)" % str(ex)[:200])
+        return {"skipped": True}
+    chains = [b"only_tty", b"only_tty:x", b"noop;only_tty;", b"nosuchfilter;;only_tty", b"only_uid:12345;only_tty", b"exclude_uid:0;noop", b""]
+    singles = measure_singles(run, exe, {(0, 0, t, b"only_tty", b"") for t in ((0, 1) if pty_ok else (0,))}, "variant")
+    ncalls = 0
+    for t in ((0, 1) if pty_ok else (0,)):
+        tty_pass = singles[(0, 0, t, b"only_tty", b"")] != "d"
+        script = list(SINKS) + ["env\t" + hexlist([b"PATH=/bin"])]
+        for k, c in enumerate(chains):
+            script.append("ini\t" + hexs(b"[snoopy]\nmessage_format = \"%{cmdline}\"\noutput = file:@D@/out.log\nfilter_chain = \"" + c + b"\"\n"))
+            script.append(call_line("execv", b"/bin/prog", [b"mark-%d-x" % k], None, 0, -1, 2))
+        r = run_script_as(run, lib, script, "c07-variant-%d" % t, 0, t, timeout=120)
+        if r["status"] != 0:
+            run.violation("e2e:caller-died", "crash", "caller with the only_tty-only build ended with status %s: %s" % (r["status"], r["stderr"][-300:]),
+                          {"failing_input": {"build": "only_tty is the only configured filter", "tty": t}, "script": script, "uid": 0, "tty": t})
+            continue
+        pcs = per_call(r["records"])
+        for k, c in enumerate(chains):
+            ncalls += 1
+            want = tty_pass or b"only_tty" not in c
+            at = "".join(hx for (nm, hx) in pcs.get(k, {"sinks": {}})["sinks"].get("at-exec", []) if nm == "out" and hx not in ("-", "~"))
+            logged = (b"mark-%d-x" % k).hex() in at
+            if logged != want:
+                sub = list(SINKS) + ["env\t" + hexlist([b"PATH=/bin"]), script[len(SINKS) + 1 + 2 * k], script[len(SINKS) + 2 + 2 * k].replace("mark-%d-x" % k, "mark-0-x").replace((b"mark-%d-x" % k).hex(), b"mark-0-x".hex())]
+                run.violation("e2e:one-filter-build", "spec_violation",
+                              "build with only_tty as the only configured filter, %s on stdin: the chain %r decides '%s' but the call was %s"
+                              % ("a terminal" if t else "/dev/null", c, "pass" if want else "drop", "logged" if logged else "not logged"),
+                              {"failing_input": {"build": "config.h with SNOOPY_CONF_FILTER_ENABLED_only_tty as the only filter macro", "filter_chain": c.decode("latin1"), "tty": t,
+                                                 "predicted": "pass" if want else "drop"},
+                               "script": sub, "uid": 0, "tty": t, "sink": "out", "predicted_pass": want, "variant": "only_tty"})
+                break
+    return {"calls": ncalls, "build": "only_tty only"}
+
+
 # ------------------------------------------------------------------------------------------------ uid histories in one process image
 HIST_SEQ = [(0, 4242), (1000, 4242), (65534, 4242), (1000, 1000), (0, 0), (4294967294, 4242), (4242, 7), (0, 4242)]
 
@@ -256,15 +307,24 @@ def hist_stream(run, exe, lib, tier):
     open(pp, "w").write("".join(l + "\n" for l in lines))
     pred = dict(zip([(st[0], c) for (st, c) in pairs], run.run_model(AREA, pp, pp + ".out")))
     jobs = [(c, sq) for c in chains for sq in seqs]
+    # the same with every second call made from a fresh thread: a call that was filtered out must leave nothing behind that stops the next
+    # caller (5 s limit per threaded call; exec result -99 = still blocked)
+    thr = [(u, g, k % 2 == 1) for k, (u, g) in enumerate(HIST_SEQ)]
+    jobs += [(c, thr) for c in chains[:5]]
     outs = run_many(lambda j: run_uidhist(run, lib, hist_ini(jobs[j][0]), jobs[j][1], "%d" % j), range(len(jobs)), workers=4)
     ncalls = 0
     for (c, sq), o in zip(jobs, outs):
-        if isinstance(o, str) or len(o) != len(sq):
+        if isinstance(o, str) or (len(o) != len(sq) and not (o and o[-1][3] == -99)):
             run.violation("e2e:history-caller-died", "crash", "process with uid history %s and chain %r ended abnormally: %s" % (sq, c, o),
                           {"failing_input": {"filter_chain": c.decode("latin1"), "uid_gid_history": sq}, "hist": {"chain": c.decode("latin1"), "seq": sq}})
             continue
         for k, (u, g, grew, ret, err) in enumerate(o):
             ncalls += 1
+            if ret == -99:
+                run.violation("e2e:exec-blocked", "spec_violation", "call %d of one process image, made from a second thread, did not return within 5 s (history %s, chain %r): the exec does not proceed"
+                              % (k + 1, sq[: k + 1], c), {"failing_input": {"filter_chain": c.decode("latin1"), "uid_gid_thread_history": sq[: k + 1]},
+                                                          "hist": {"chain": c.decode("latin1"), "seq": sq[: k + 1], "want_last": None}})
+                break
             p = pred.get((u, c), "")
             if not p.startswith("ok\t"):
                 continue
@@ -302,6 +362,12 @@ def e2e(run, exe, fc, alpha, tier, rng, pty_ok=True):
         oname, oarg, sink = OUTS[o]
         procs.append({"uid": u, "tty": t, "out": oname, "oarg": oarg, "sink": sink, "chains": list(pairs_ch),
                       "extra": b"error_logging = yes\nlog_message_max_length = 255\n", "fmt": b"%{cmdline} %{nosuchdatasource:x}"})
+    # the option assigned twice in one file, the empty chain first: the LAST value is the chain (an empty chain passes everything, it
+    # does not switch filtering off for what follows)
+    for (u, t, o) in ([(1000, 0, 0)] if tier == "quick" else [(1000, 0, 0), (0, 0, 3)]):
+        oname, oarg, sink = OUTS[o]
+        procs.append({"uid": u, "tty": t, "out": oname, "oarg": oarg, "sink": sink, "chains": list(pairs_ch), "extra": b"", "fmt": b"%{cmdline}",
+                      "pre": b"filter_chain = \"\"\nfilter_chain =\n"})
     # predictions: the chain combinator (model) over the verdicts measured at function level in the same state
     pairs = [((p["uid"], p["uid"], p["tty"]), c) for p in procs for c in p["chains"]]
     lines, singles, el = chain_cases(run, exe, pairs, "e2e")
@@ -316,7 +382,7 @@ def e2e(run, exe, fc, alpha, tier, rng, pty_ok=True):
             k += 1
 
     def ini_of(p, chain):
-        return b"[snoopy]\n" + p["extra"] + b"message_format = \"" + p["fmt"] + b"\"\noutput = " + p["oarg"] + b"\nfilter_chain = \"" + chain + b"\"\n"
+        return b"[snoopy]\n" + p["extra"] + b"message_format = \"" + p["fmt"] + b"\"\noutput = " + p["oarg"] + b"\n" + p.get("pre", b"") + b"filter_chain = \"" + chain + b"\"\n"
 
     def job(i):
         p = procs[i]
@@ -366,6 +432,8 @@ def e2e(run, exe, fc, alpha, tier, rng, pty_ok=True):
                 sig, why = "e2e:pass-not-logged", "the chain decides 'pass' but no record is at the configured sink '%s' at exec entry" % p["sink"]
             elif want_pass and (stray or late):
                 sig, why = "e2e:stray-output", "bytes at %s besides the configured sink" % (stray or late)
+            if why and p.get("pre"):
+                why += " (filter_chain assigned three times in the file: \"\", empty, then this chain)"
             if why:
                 sub = list(SINKS) + ["env\t" + hexlist([b"PATH=/bin"]), "ini\t" + hexs(ini_of(p, c)), script[len(SINKS) + 2 + 2 * k].replace("\t1\t0\t0", "\t0\t-1\t2") if last else script[len(SINKS) + 2 + 2 * k]]
                 run.violation(sig, "spec_violation", "%s: chain %r, output %s, uid %d, %s on stdin" % (why, c[:200], p["out"], p["uid"], "a terminal" if p["tty"] else "/dev/null"),
@@ -404,6 +472,12 @@ def check(run):
             holes += [b";" + x, x + b";", b";;" + x, x + b";;", b";" + x + b";", x + b";;" + y, y + b";;" + x, b";" + y + b";;;" + x + b";", b";;" + y + b";" + x + b";;",
                       y + b";" + b";" * 7 + x]
     gen += [(st, c) for st in ((1000, 7, 0), (0, 0, 0), (65534, 65534, 0)) for c in holes]
+    # '%' bytes: a chain is data, never a format (conversions with a field width would push or cut the rest of the chain)
+    pct = []
+    for x in (b"only_uid:1001", b"only_root", b"exclude_uid:1000"):
+        for pre in (b"%", b"%%", b"nosuch:%%", b"noop:100%", b"x%4000d", b"noop:%900c", b"%1000%", b"nosuch:%-1500d", b"noop:%d;nosuch:%%%%", b"%s", b"noop:%s%s%s", b"%n", b"nosuch:%hhn%n"):
+            pct += [pre + b";" + x, x + b";" + pre, pre + b";noop;" + pre + b";" + x]
+    gen += [(st, c) for st in ((1000, 7, 0), (0, 0, 0)) for c in pct]
     bnd = boundary_chains(limit, 1000, 1001)
     gen += [(st, c) for st in ((1000, 7, 0), (0, 1000, 1 if pty_ok else 0)) for c in bnd]
     # a smoke stage first: when the implementation faults on a large share of it the full stream is pointless (and slow)
@@ -437,11 +511,12 @@ def check(run):
     res2 = corr_stream(run, AREA, exe, bc, stream="beyond", impl_env=FAST_ASAN) if bc else {"mismatch": [], "spec_bad": [], "faults": [], "model": [], "impl": []}
     nv2, mism2 = classify(run, res2, bc, "beyond", in_domain=False)
     # ---- concurrent callers (impl only): a chain's decision while other threads evaluate other chains = its decision alone
-    mt = mt_stream(run, exe, limit) if not crashed else {"cases": 0}
+    mt = mt_stream(run, exe, limit, anc) if not crashed else {"cases": 0}
     # ---- end to end
     ee = e2e(run, exe, fc, alpha, run.tier, rng, pty_ok) if not crashed else {"calls": 0, "processes": 0, "skipped": True}
     if not crashed:
         ee["uid_histories"] = hist_stream(run, exe, build_prod(run), run.tier)
+        ee["one_filter_build"] = variant_stream(run, exe, pty_ok)
     nv_total = len(run.violations)
     if not ok and nv_total == 0:
         run.violation("proof:%s" % failed, "proof", "proof obligation no longer checks: %s; %s\n%s" % (failed, "; ".join(n for n in run.notes if n.startswith("translator") or n.startswith("skeleton")) or "the translator recognised every statement (the regenerated constants themselves violate the side condition)", log[-1500:]),
@@ -492,12 +567,18 @@ def replay(run, path):
         o = run_uidhist(run, lib, hist_ini(h["chain"].encode("latin1")), [tuple(x) for x in h["seq"]], "replay")
         print("chain:", h["chain"], " history (uid, gid):", h["seq"])
         print("per call (uid, gid, bytes logged, ret, errno):", o)
-        bad = isinstance(o, str) or len(o) != len(h["seq"]) or ((o[-1][2] > 0) != h.get("want_last", True))
+        bad = isinstance(o, str) or len(o) != len(h["seq"]) or o[-1][3] == -99 or (h.get("want_last") is not None and (o[-1][2] > 0) != h.get("want_last", True))
         print("last call predicted:", "pass" if h.get("want_last") else "drop")
         run.cleanup()
         return 1 if bad else 0
     if rep.get("script"):
         lib = build_prod(run)
+        if rep.get("variant") == "only_tty":
+            import re
+            objs = run.build_objs("prod-onlytty", san=False, entry=True,
+                                  config_edit=lambda cfg: re.sub(r"^#define SNOOPY_CONF_FILTER_ENABLED_(?!only_tty\b)\w+.*$", "/* not in this build */", cfg, flags=re.M))
+            lib = os.path.join(run.scratch, "lib-prod-onlytty.so")
+            run.link(lib, [], objs, san=False, shared=True)
         r = run_script_as(run, lib, rep["script"], "replay", rep.get("uid", 0), rep.get("tty", 0), timeout=120)
         c = per_call(r["records"]).get(0, {})
         seen = []
